@@ -1,2 +1,90 @@
+//! raw-model converter commands (C06, C07, C14, C20).
+use crate::rawabs::*;
+use crate::util::*;
 use crate::CmdFn;
-pub fn commands() -> Vec<(&'static str, CmdFn)> { vec![] }
+use gds21::*;
+use layout21raw as raw;
+use serde_json::{json, Value};
+
+pub fn commands() -> Vec<(&'static str, CmdFn)> {
+    vec![("gds_to_raw", gds_to_raw)]
+}
+
+fn ipt(v: &Value) -> GdsPoint { GdsPoint::new(v[0].as_i64().unwrap() as i32, v[1].as_i64().unwrap() as i32) }
+fn ipts(v: &Value) -> Vec<GdsPoint> { v.as_array().map(|a| a.iter().map(ipt).collect()).unwrap_or_default() }
+fn strans_of(e: &Value) -> Option<GdsStrans> {
+    let refl = getb(e, "refl");
+    let ang = geti(e, "angle");
+    let mag = gets(e, "mag");
+    if !refl && ang == 0 && mag == "none" { return None; }
+    Some(GdsStrans { reflected: refl, abs_mag: mag == "absmag", abs_angle: mag == "absangle",
+        mag: match mag { "mag1" => Some(1.0), "mag2" => Some(2.0), _ => None },
+        angle: if ang != 0 { Some(ang as f64) } else { None } })
+}
+/// simple abstract GDS (specs/raw/GdsSemantics.tla) -> GdsLibrary
+pub fn simple_gds(lib: &Value) -> GdsLibrary {
+    let mut g = GdsLibrary::new("lib");
+    for s in lib.as_array().unwrap() {
+        let mut st = GdsStruct::new(gets(s, "name"));
+        for e in geta(s, "elems") {
+            let l = |k: &str| e.get(k).and_then(|x| x.as_i64()).unwrap_or(0) as i16;
+            let el: GdsElement = match gets(e, "k") {
+                "boundary" => GdsBoundary { layer: l("layer"), datatype: l("dt"), xy: ipts(&e["pts"]), ..Default::default() }.into(),
+                "box" => { let p = ipts(&e["pts"]); GdsBox { layer: l("layer"), boxtype: l("dt"),
+                           xy: [p[0].clone(), p[1].clone(), p[2].clone(), p[3].clone(), p[4].clone()], ..Default::default() }.into() }
+                "path" => GdsPath { layer: l("layer"), datatype: l("dt"), width: Some(geti(e, "width") as i32), xy: ipts(&e["pts"]), ..Default::default() }.into(),
+                "sref" => GdsStructRef { name: gets(e, "name").into(), xy: ipt(&e["at"]), strans: strans_of(e), ..Default::default() }.into(),
+                "aref" => GdsArrayRef { name: gets(e, "name").into(), xy: [ipt(&e["o"]), ipt(&e["c"]), ipt(&e["w"])], cols: l("cols"), rows: l("rows"),
+                                        strans: strans_of(e), ..Default::default() }.into(),
+                "text" => GdsTextElem { string: gets(e, "str").into(), layer: l("layer"), texttype: l("tt"), xy: ipt(&e["at"]), ..Default::default() }.into(),
+                k => panic!("harness: element kind {k}"),
+            };
+            st.elems.push(el);
+        }
+        g.structs.push(st);
+    }
+    g
+}
+pub fn elem_json(e: &raw::Element, layers: &raw::Layers) -> Value {
+    let lay = layers.get(e.layer);
+    let mut v = shape_json(&e.inner);
+    v["layer"] = json!(lay.map(|l| l.layernum));
+    v["dt"] = json!(lay.and_then(|l| l.num(&e.purpose)));
+    v["net"] = json!(e.net);
+    v
+}
+pub fn raw_cells_json(lib: &raw::Library) -> Result<Value, String> {
+    let layers = lib.layers.read().map_err(|_| "poisoned")?;
+    let mut cells = Vec::new();
+    for c in lib.cells.iter() {
+        let c = c.read().map_err(|_| "poisoned")?;
+        let mut o = json!({"name": c.name});
+        if let Some(l) = &c.layout {
+            let flat = match guarded(|| l.flatten()) {
+                Err(p) => json!({"panic": p}),
+                Ok(Err(e)) => json!({"err": err_str(e)}),
+                Ok(Ok(f)) => Value::Array(f.iter().map(|e| elem_json(e, &layers)).collect()),
+            };
+            o["flat"] = flat;
+            o["own"] = Value::Array(l.elems.iter().map(|e| elem_json(e, &layers)).collect());
+            o["annots"] = Value::Array(l.annotations.iter().map(|a| json!({"str": a.string, "at": [a.loc.x, a.loc.y]})).collect());
+            o["insts"] = Value::Array(l.insts.iter().map(|i| json!({"name": i.inst_name, "cell": i.cell.read().map(|c| c.name.clone()).unwrap_or_default(),
+                "loc": [i.loc.x, i.loc.y], "refl": i.reflect_vert, "angle": i.angle})).collect());
+        }
+        cells.push(o);
+    }
+    Ok(Value::Array(cells))
+}
+
+/// C06 S->I: {lib: simple abstract GDS} -> import -> per-cell flat geometry, own elements with nets, annotations
+fn gds_to_raw(case: &Value) -> Value {
+    let g = simple_gds(&case["lib"]);
+    match guarded(|| raw::Library::from_gds(&g, None)) {
+        Err(p) => json!({"id": id(case), "outcome":"panic", "msg": p}),
+        Ok(Err(e)) => json!({"id": id(case), "outcome":"err", "msg": err_str(e)}),
+        Ok(Ok(lib)) => match raw_cells_json(&lib) {
+            Ok(c) => json!({"id": id(case), "outcome":"ok", "cells": c, "units": format!("{:?}", lib.units)}),
+            Err(e) => json!({"id": id(case), "outcome":"ok", "cells": [], "glue": e}),
+        },
+    }
+}
